@@ -312,8 +312,11 @@ impl TaskLauncher for FakeLauncher {
                                 e.stop_reason = Some(name);
                                 sh.obs.push(Obs::StopSignal { exec: exec_id, task, slot, reason: name });
                             }
-                            let _ = (&mut end_rx).await;
-                            Ok(reason.into())
+                            match (&mut end_rx).await {
+                                Ok(_) => Ok(reason.into()),
+                                // the worker is gone (killed) or the system is being torn down
+                                Err(_) => futures::future::pending().await,
+                            }
                         }
                         Err(_) => {
                             // the real future panics here ("Stop reason could not be received")
@@ -1202,6 +1205,38 @@ impl System {
                     }
                 }
             }
+        }
+    }
+
+    /// Mechanism label of an event before it is applied (used to name panic sites).
+    pub fn pre_label(&self, ev: Ev) -> String {
+        match ev {
+            Ev::ToWorker(i) => {
+                let f = self.workers[i as usize].as_ref().and_then(|w| w.to_worker.front());
+                format!("worker<-{}", f.map(|f| describe_to_worker(f).0).unwrap_or("?"))
+            }
+            Ev::ToServer(i) => {
+                let f = self.workers[i as usize].as_ref().and_then(|w| w.to_server.front());
+                match f.map(|f| describe_from_worker(f)) {
+                    Some((kind, tasks)) => {
+                        let mut kinds: Vec<&str> = if tasks.is_empty() { vec![kind] } else { tasks.iter().map(|t| t.1).collect() };
+                        kinds.dedup();
+                        format!("server<-{}", kinds.join("+"))
+                    }
+                    None => "server<-?".into(),
+                }
+            }
+            Ev::Sched => "sched".into(),
+            Ev::EndOk(_) | Ev::EndErr(_) | Ev::EndStopped(_) | Ev::Flushed(_) => "exec-end".into(),
+            Ev::TimeLimit(_) => "time-limit".into(),
+            Ev::Kill(..) => "worker-lost".into(),
+            Ev::Join(_) => "worker-joined".into(),
+            Ev::Client(c) => {
+                let conn = &self.clients[c as usize];
+                let req = self.sc.clients[c as usize].get(conn.next as usize);
+                format!("client:{}", req.map(super::monitors::req_kind).unwrap_or("?"))
+            }
+            Ev::FlushDone => "flush-done".into(),
         }
     }
 
